@@ -90,9 +90,8 @@ def accepted_families(fams, cap=None, salt='fam'):
         for s in sents:
             toks, _ = render.substitute(s, lits=grammar.STD_LITS)
             text = render.layout(toks, 0)
-            for entry in ('expression', 'condition'):
+            for entry in ('expression', 'condition'):     # the predicate-level checks only run for `condition`
                 out, obj = call_parser(entry, text)
                 if out == 'ast':
                     res.append((text, entry, obj))
-                    break
     return res, stats
